@@ -109,3 +109,18 @@ add("C12", "exploration",
     "as echo, results were the whole dialogue, no input followed a completion pattern, and the secondary secret only reached the device in password state after its prompt. "
     "Holds under the stated model assumptions (unique response tokens, in-sync session); known exception: first operation of a fresh session (stale initial prompt).",
     "DESIGN.md §3 C12", "real channel/generic/network code against a causal CLI device model with PRNG-dribbled delivery; Delivered-at-write vs regexp match point comparisons on the transport event log; device-side line/state log")
+
+add("C04", "exploration",
+    "Exploration with an exhaustive core: for every rooted labelled privilege tree with <=4 levels (quick) / <=5 levels (thorough), in plain, authenticated-edge and "
+    "not-contains-overlap variants, every ordered (current,target) pair is acquired through the driver itself and the device model must receive exactly the LCA path's "
+    "de-escalate/escalate commands (secret only where asked) and end in the target mode; unknown targets must fail with a privilege error before any write. Random 6-8-level "
+    "trees and random sequences of SendCommand(s)/SendConfig(s)/AcquirePriv/SendInteractive check that every payload line arrives at the default, configuration or requested "
+    "level, under all modelled read segmentations. Operation kind, prompts, auth edges and transport parameters are sampled.",
+    "DESIGN.md §3 C04", "real network.Driver vs strict privilege-tree CLI model; LCA reference path compared with the device's (mode,line) log; exhaustive labelled rooted trees x all ordered pairs via Euler tour + random op sequences")
+
+add("C18", "exploration",
+    "Exploration. On 800 (quick) / 15 000 (thorough) PRNG-generated callback lists and causal device dialogues under random segmentation, every observed firing, result, "
+    "once error and timeout (incl. next-timeout bounds and expiries racing with the reader's exit) is judged per firing against the transport model's read log by an "
+    "independent reference trigger predicate (chunk-walking oracle). Triggers outside the generated families are excluded by stated preconditions; 'timed out although a "
+    "trigger held' is judged only when the chunk was delivered >= 300 ms before the deadline with a quiet load canary, else inconclusive.",
+    "DESIGN.md §3 C18", "recorded callback firings judged online against the transport read log by an independent reference trigger predicate; PRNG callback lists / scripted dialogues / segmentations; timeout bursts for the expiry race")
